@@ -81,6 +81,73 @@ func c13Search(W, L, Q int) { c13SearchM(W, L, Q, -1) }
 // c13SearchM: mode -1 = all searcher combinations, else the fixed combination.
 func c13SearchM(W, L, Q, fixedMode int) {
 	words := dwWords(W, L)
+	blank := rt.Byte("blank")
+	mode := fixedMode
+	if mode < 0 {
+		mode = rt.Choice("searchers", 3) // 0 pattern, 1 anagram, 2 both
+	}
+	var p, a []byte
+	if mode == 0 || mode == 2 {
+		p = rt.Bytes("pattern", rt.Choice("patlen", Q+1))
+	}
+	if mode == 1 || mode == 2 {
+		a = rt.Bytes("anagram", rt.Choice("analen", Q+1))
+	}
+	c13Run(words, L, blank, mode, p, a, true)
+}
+
+// c13Abc: EVERY set of words of length <= L over the first A letters against EVERY pattern /
+// anagram of length <= Q (Q2 when both searchers are used) over those letters and the blank.
+func c13Abc(A, L, Q, Q2 int) {
+	var all [][]byte
+	var gen func(prefix []byte)
+	gen = func(prefix []byte) {
+		all = append(all, append([]byte{}, prefix...))
+		if len(prefix) == L {
+			return
+		}
+		for c := 0; c < A; c++ {
+			gen(append(prefix, byte('a'+c)))
+		}
+	}
+	gen(nil)
+	var words [][]byte
+	for _, w := range all {
+		if rt.Choice("in", 2) == 1 {
+			words = append(words, w)
+		}
+	}
+	query := func(name string, maxLen int) []byte {
+		l := rt.Choice(name+"len", maxLen+1)
+		q := make([]byte, l)
+		for i := range q {
+			c := rt.Choice(name, A+1)
+			if c == A {
+				q[i] = '?'
+			} else {
+				q[i] = byte('a' + c)
+			}
+		}
+		return q
+	}
+	mode := rt.Choice("searchers", 3)
+	var p, a []byte
+	switch mode {
+	case 0:
+		p = query("pattern", Q)
+	case 1:
+		a = query("anagram", Q)
+	default:
+		p = query("pattern", Q2)
+		a = query("anagram", Q2)
+	}
+	c13Run(words, L, '?', mode, p, a, false)
+}
+
+func H_c13_abc_q() { c13Abc(2, 2, 3, 2) }
+func H_c13_abc_t() { c13Abc(2, 2, 4, 3) }
+
+func c13Run(words [][]byte, L int, blank byte, mode int, p, a []byte, probe bool) {
 	orig := dwCopyWords(words)
 	d, err := New(words)
 	if err != nil {
@@ -88,7 +155,6 @@ func c13SearchM(W, L, Q, fixedMode int) {
 		return
 	}
 	nodes := d.numberOfNodes()
-	blank := rt.Byte("blank")
 	want := make([]bool, len(orig))
 	for i := range want {
 		want[i] = true
@@ -97,12 +163,7 @@ func c13SearchM(W, L, Q, fixedMode int) {
 	var pat *PatternSearcher
 	var ana *AnagramSearcher
 	var anaIn []byte
-	mode := fixedMode
-	if mode < 0 {
-		mode = rt.Choice("searchers", 3) // 0 pattern, 1 anagram, 2 both
-	}
 	if mode == 0 || mode == 2 {
-		p := rt.Bytes("pattern", rt.Choice("patlen", Q+1))
 		p0 := append([]byte(nil), p...)
 		pat = NewPatternSearcher(p, blank)
 		searchers = append(searchers, pat)
@@ -111,7 +172,6 @@ func c13SearchM(W, L, Q, fixedMode int) {
 		}
 	}
 	if mode == 1 || mode == 2 {
-		a := rt.Bytes("anagram", rt.Choice("analen", Q+1))
 		anaIn = append([]byte(nil), a...)
 		ana = NewAnagramSearcher(a, blank)
 		searchers = append(searchers, ana)
@@ -156,7 +216,15 @@ func c13SearchM(W, L, Q, fixedMode int) {
 	}
 	// the Dawg is unchanged
 	rt.Check(d.numberOfNodes() == nodes, "Search changed the node count")
-	dwCheckIndex(d, orig, L+1, "after Search")
+	if probe {
+		dwCheckIndex(d, orig, L+1, "after Search")
+	} else {
+		rt.Check(d.NumberOfWords() == len(orig), "after Search: NumberOfWords wrong")
+		for r, w := range orig {
+			idx, ok := d.Lookup(append([]byte{}, w...))
+			rt.Check(ok && idx == r, "after Search: Lookup of a word changed")
+		}
+	}
 	// repeating the search gives the same result
 	solns2, ids2 := d.Search(searchers...)
 	c13Same(s1, i1, solns2, ids2, "Search")
